@@ -2,6 +2,7 @@ import Passage.Driver.Common
 import Passage.Listener
 import Passage.Extracted.Listener
 import Passage.Conn.ByteLevel
+import Passage.Proxy
 /-
   line handlers for the listener layer (C14–C17).  Every answer is computed from the structure
   facts re-extracted from the source on this run (`Passage.Extracted.listener`): without facts the
@@ -44,6 +45,25 @@ def parseConn (s : String) : Option Conn :=
     | 's' :: r => (String.ofList r).toNat?.map fun ip => ⟨p, .source ip⟩
     | _ => none
   | _ => none
+
+/-- `k:v,k:v` with hex keys → association list; values parsed by `f` -/
+def parseTable {α} (f : String → Option α) (s : String) : Option (List (Bytes × α)) :=
+  if s = "-" then some [] else
+  (s.splitOn ",").mapM fun kv => match kv.splitOn ":" with
+    | [k, v] => do some (← hex? k, ← f v)
+    | _ => none
+
+def lookupB {α} (k : Bytes) : List (Bytes × α) → Option α
+  | [] => none
+  | (k', v) :: r => if k' = k then some v else lookupB k r
+
+/-- the header class of a first segment, computed by the PROXY parser model; `none` = the parser still waits -/
+def classify (C : Proxy.Cfg) (ip4 ip6 : List (Bytes × Option Bytes)) (ids : List (Bytes × Nat)) (first : Bytes) : Option Header :=
+  match Proxy.parse C (fun t => (lookupB t ip4).join) (fun t => (lookupB t ip6).join) first with
+  | .tooShort => none
+  | .invalid => some .invalid
+  | .ok none _ => some .noAddress
+  | .ok (some s) _ => (lookupB s.ip ids).map Header.source
 
 def verdictStr : Verdict → String
   | .served a => s!"S{a}"
@@ -98,7 +118,21 @@ def handleF (f : Passage.Extracted.ListenerFacts) (toks : List String) : Option 
     let proxy ← kvNat r "proxy"
     let lim ← kv r "limit"
     let conns ← kv r "conns"
-    let cs ← (conns.splitOn ";").mapM parseConn
+    let cs0 ← (conns.splitOn ";").mapM parseConn
+    -- when the raw first segments are given, the header class comes from the parser model, not from the recorded class
+    let cs ← match kv r "firsts" with
+      | none => some cs0
+      | some fs => do
+        if proxy ≠ 1 then some cs0 else
+        let firsts ← (fs.splitOn ";").mapM hex?
+        let allow ← kv r "allow"
+        let C : Proxy.Cfg := ⟨allow.toList.head? == some '1', (allow.toList.drop 1).head? == some '1'⟩
+        let optB : String → Option (Option Bytes) := fun v => if v = "-" then some none else (hex? v).map some
+        let ip4 ← parseTable optB ((kv r "ip4o").getD "-")
+        let ip6 ← parseTable optB ((kv r "ip6o").getD "-")
+        let ids ← parseTable String.toNat? ((kv r "ids").getD "-")
+        if firsts.length ≠ cs0.length then none else
+        (cs0.zip firsts).mapM fun (c, f) => (classify C ip4 ip6 ids f).map fun h => ({ c with header := h } : Conn)
     let s : AdmState ← if lim = "off" then some ⟨none⟩ else lim.toNat?.map fun _ => ⟨some RL.init⟩
     let cfg : RL.Cfg := ⟨3600000000000, lim.toNat?.getD 0⟩
     let served := f.limiterBeforeConnection && f.limiterOnEffectiveAddr && f.connAddr
